@@ -206,6 +206,42 @@ func c12CheckDecoded(rec *c12Rec, op, class, lenClass string, m *ref.EBP, got eb
 	if again := got.Data(); !bytes.Equal(again, in) {
 		bad("reencode-bytes-differ-second-call", "second Data() = %d bytes % x", len(again), c12Head(again, 40))
 	}
+	// a DECODED object is an object like any other: a flag set through the setter API afterwards shows in the
+	// getter and in the very next Data() (flags that bring no field of their own, and the CableLabs partition flag
+	// where the extension byte is there to hold it); one setter at a time, cumulative model
+	m2 := *m
+	m2.Grouping, m2.Reserved = append([]byte(nil), m.Grouping...), append([]byte(nil), m.Reserved...)
+	step := func(name string, set func(), getter func() bool) {
+		set()
+		want := ref.AppendEBP(nil, &m2)
+		if !getter() {
+			bad("decoded-then-"+name+"|getter", "after %s(true) on the decoded object the getter reports false", name)
+		}
+		if out := got.Data(); !bytes.Equal(out, want) {
+			bad("decoded-then-"+name+"|Data", "after %s(true) on the decoded object Data() = % x, want % x", name, c12Head(out, 24), c12Head(want, 24))
+		}
+	}
+	if !m2.Fragment {
+		m2.Fragment = true
+		step("SetFragmentFlag", func() { got.SetFragmentFlag(true) }, got.FragmentFlag)
+	}
+	if !m2.Segment {
+		m2.Segment = true
+		step("SetSegmentFlag", func() { got.SetSegmentFlag(true) }, got.SegmentFlag)
+	}
+	if m2.Tag == ref.EBPTagCableLabs && m2.ExtFlag && !m2.Partition() {
+		if x, ok := got.(interface {
+			SetPartitionFlag(bool)
+			PartitionFlag() bool
+		}); ok {
+			proto := ebp.CreateCableLabsEbp()
+			if o, ok2 := c12As(got, &proto); ok2 {
+				m2.Ext |= 0x80
+				m2.Partitions = o.PartitionFlags
+				step("SetPartitionFlag", func() { x.SetPartitionFlag(true) }, x.PartitionFlag)
+			}
+		}
+	}
 }
 
 func c12Head(b []byte, n int) []byte {
